@@ -59,9 +59,9 @@ def run(args):
     rep.floor("jet_observables", no, 20)
     extra_rules.append("C06.c R-JET: for the precision switches of SE2 ljac/rjacinv/ljacinv, SO3 ljac/ljacinv, SE3 fillQ and SGal3 ljac the closed-form arm has no negative-order term and the two arms differ by less than 1e-7 (double) / 1e-3 (float) at the switch-over; R-DIV on their small-angle sides")
     from . import rules_series
-    ns = rules_series.check(rep, "C06", {"rjac", "ljac", "rjacinv", "ljacinv"})
-    rep.floor("series_cells", ns, 944)
-    extra_rules.append("C06.e R-SERIES: for SO2, SE2, SO3, SE3, SE_2_3, SGal3 the closed-form code of rjac / ljac / rjacinv / ljacinv, interpreted over truncated power series in the tangent (engine/jetnum.py), equals sum (-+ad)^k/(k+1)! resp. sum B_k (-+ad)^k/k! through order 4 cell by cell, ad = smallAdj being the table proved against the bracket by C06.a/C07; Eigen's inverse() of I + O(t) is summarised by its Neumann series")
+    ns = rules_series.check(rep, "C06", {"rjac", "ljac", "rjacinv", "ljacinv", "adjexp"})
+    rep.floor("series_cells", ns, 1180)
+    extra_rules.append("C06.e R-SERIES: for SO2, SE2, SO3, SE3, SE_2_3, SGal3 the closed-form code of rjac / ljac / rjacinv / ljacinv, interpreted over truncated power series in the tangent (engine/jetnum.py), equals sum (-+ad)^k/(k+1)! resp. sum B_k (-+ad)^k/k! through order 4 cell by cell, and Adj(exp t) = sum ad^k/k! likewise, ad = smallAdj being the table proved against the bracket by C06.a/C07; Eigen's inverse() of I + O(t) is summarised by its Neumann series")
     rep.rules = [
         "C06.b R-DA: every Jacobian-typed local returned by rjac/ljac/rjacinv/ljacinv/adj/smallAdj (and fillQ/fillE's Ref output) has all cells written on every path; scratch blocks are read only after they were written",
         "C06.b R-BLOCK / R-NOALIAS on the same functions",
